@@ -35,11 +35,46 @@ func Open(filename string) (*Reader, error) {
 	return OpenReader(f)
 }
 
+// maxTreeDepth is the deepest element nesting OpenReader accepts.
+const maxTreeDepth = 10000
+
+// treeDepthExceeds reports whether some node lies more than limit levels below root. It walks
+// the tree iteratively (first child, next sibling, back up through the parent).
+func treeDepthExceeds(root *html.Node, limit int) bool {
+	depth := 0
+	n := root
+	for n != nil {
+		if n.FirstChild != nil {
+			n = n.FirstChild
+			depth++
+			if depth > limit {
+				return true
+			}
+			continue
+		}
+		for n != root && n.NextSibling == nil {
+			n = n.Parent
+			depth--
+		}
+		if n == root {
+			return false
+		}
+		n = n.NextSibling
+	}
+	return false
+}
+
 // OpenReader parses HTML from an io.Reader.
 func OpenReader(r io.Reader) (*Reader, error) {
 	doc, err := html.Parse(r)
 	if err != nil {
 		return nil, fmt.Errorf("parsing HTML: %w", err)
+	}
+
+	// The extraction walks the tree recursively: refuse a tree so deep that the walks would
+	// exhaust the goroutine stack (which aborts the process; the HTML parser itself sets no limit).
+	if treeDepthExceeds(doc, maxTreeDepth) {
+		return nil, fmt.Errorf("parsing HTML: elements nested deeper than %d", maxTreeDepth)
 	}
 
 	reader := &Reader{
